@@ -1,5 +1,6 @@
 import PharmpyModel.Core.Codec
 import PharmpyModel.C10.Model
+import PharmpyModel.C10.Unused
 open Pharmpy Pharmpy.C10
 
 def errS : Err → Sexp
@@ -8,6 +9,26 @@ def errS : Err → Sexp
   | .indexError => .list [.atom "err", .atom "IndexError"]
 
 def bad : Sexp := .list [.atom "err", .atom "bad-op"]
+
+
+def param? : Sexp → Option Param
+  | .list [.atom n, b] => do some ⟨n, ← b.asBool?⟩
+  | _ => none
+
+def symLists? (x : Sexp) : Option (List (List Sym)) := do
+  let xs ← x.asList?
+  xs.mapM symList?
+
+def dist? : Sexp → Option Dist
+  | .list [.atom "n", .atom n, v] => do some (.normal n (← symList? v))
+  | .list [.atom "j", ns, m] => do
+    let rows ← m.asList?
+    some (.joint (← symList? ns) (← rows.mapM symLists?))
+  | _ => none
+
+def distS : Dist → Sexp
+  | .normal n v => .list [.atom "n", .atom n, Sexp.ofStrs v]
+  | .joint ns m => .list [.atom "j", Sexp.ofStrs ns, .list (m.map (fun r => .list (r.map Sexp.ofStrs)))]
 
 def handle (req : Sexp) : Sexp :=
   match req with
@@ -64,6 +85,15 @@ def handle (req : Sexp) : Sexp :=
       | some m => Sexp.ofBool (maskSafe ss m)
       | none => bad
     | _, _ => bad
+  | .list [.atom "unused", syms, ps, ds] =>
+    match symList? syms, ps.asList?, ds.asList? with
+    | some syms, some ps, some ds =>
+      match ps.mapM param?, ds.mapM dist? with
+      | some ps, some ds =>
+        .list [.list ((newDists syms ds).map distS), Sexp.ofStrs ((newParams syms ps ds).map (·.name)),
+               Sexp.ofStrs ((newParamsSubtract syms ps ds).map (·.name))]
+      | _, _ => bad
+    | _, _, _ => bad
   | _ => bad
 
 def main : IO Unit := runDriver (fun (_ : Unit) r => ((), handle r)) ()
